@@ -120,7 +120,9 @@ class SubCtx:
     `allow` are kept and they are recorded under this check's rule id `alias`.  Findings that the source
     property lists as known are left to the source check."""
 
-    def __init__(self, parent: Ctx, src_prop: str, allow: T.Iterable[str], alias: str):
+    def __init__(self, parent: Ctx, src_prop: str, allow: T.Iterable[str], alias: str,
+                 only: T.Optional[T.Callable[[str], bool]] = None):
+        self._only = only
         self._p = parent
         self._src = src_prop
         self._allow = set(allow)
@@ -145,6 +147,8 @@ class SubCtx:
             return
         if f"{self._src}/{rule} {key}" in self._known:
             return
+        if self._only is not None and not self._only(key):
+            return          # a finding about a construct outside this property's scope (e.g. the other engine)
         self.kept += 1
         self._p.bad(self._alias, key, f"[{self._src}/{rule}] {message}", loc, witness, path, what=f"[{self._src}/{rule}] {what or key}")
 
@@ -165,10 +169,12 @@ class SubCtx:
         return self._src
 
 
-def run_prerequisite(ctx: Ctx, src_prop: str, allow: T.Iterable[str], alias: str) -> int:
-    """Run the rules `allow` of check `src_prop` inside ctx under rule id `alias`."""
+def run_prerequisite(ctx: Ctx, src_prop: str, allow: T.Iterable[str], alias: str,
+                     only: T.Optional[T.Callable[[str], bool]] = None) -> int:
+    """Run the rules `allow` of check `src_prop` inside ctx under rule id `alias`; `only` keeps the findings
+    whose key it accepts."""
     mod = importlib.import_module(f"checks.{src_prop.lower()}")
-    sub = SubCtx(ctx, src_prop, allow, alias)
+    sub = SubCtx(ctx, src_prop, allow, alias, only)
     try:
         mod.run(sub)
     except AnalysisError:
